@@ -643,3 +643,12 @@ def nontrivial(case, out):
 
 def matches_known(k, v):
     return False
+
+# ---------------------------------------------------------------- real nodes through the public API (engine: extra_cases)
+# `Litep2p::new` (src/lib.rs), `ConfigBuilder` (src/config.rs) and the protocol / transport `Config` builders hand every
+# constructed object its configuration; the `node` area (checks/node.py) builds real nodes, compares what the CONSTRUCTED
+# objects hold (and what a connection's `ProtocolSet` answers per main / fallback name) with the wiring model
+# (Model/Node/Wiring.lean) and judges this property's real-time scenarios (messages at / above the configured maximum on
+# substreams negotiated under a FALLBACK name) at node level.
+from . import node as _node  # noqa: E402
+_node.install(globals())
